@@ -52,7 +52,7 @@ func init() {
 			"(D3) pointer-to-message fields of a handler's request parameter are nullable (proto3 leaves them nil when absent): a field access, or passing the value to a module function whose summary says it dereferences that parameter on a path without a nil test (generated getters come out nil-safe from their bodies), must be dominated by a nil test of the value or of another read of the same request field. " +
 			"(D4) a module function with a return that carries nil (or a nullable value) together with a nil error is a nullable source for all its callers; a function that returns nil with a non-nil error is a nullable source at the points not dominated by the nil side of a test of that call's error (helpers that hand back the error they were given are seen through). Correlated results are honoured (the comma-ok idiom of module functions): when every nil-without-error return of the callee carries the same constant in one of its bool results and every other success return carries the opposite constant, a use dominated by the side of a test of that result, of that very call, on which it has the opposite value is guarded; wrappers that pass the value on only on that side therefore do not become nullable sources themselves, and a function that returns the value together with that very flag of the same call (return f()) inherits the correlation, merged with its own constant returns. Return statements the compiler merged into one return of phis are read per predecessor, and a named result that no store can reach on the way to a bare return counts as its zero value.One obligation per (caller, callee) pair in reachable code. The same engine is also run on the module's remaining non-test functions (the exported API no handler reaches, e.g. WeshOrbitDB.OpenGroupReplication); what it finds there is outside the property and is only written to the notes, prefixed \"outside the property's scope:\". " +
 			"(D5) in the exported functions of pkg/cryptoutil, every slice expression with a bound, index expression or slice-to-array conversion on a byte slice needs its length established. With constant bounds (r[:32], x[3], conversion to [N]byte) the length facts of D6 are used: len >= bound must follow from a dominating comparison of len of that slice with a constant (so a weakened test such as len > 0 is reported), from a slice of an array or a make, or from the slice being the result of a module function all of whose non-nil returns have that fact, at a call site where its error was tested nil. With bounds computed at run time (data[:n]) the operation must be control-dependent on a comparison involving len of that same slice; whether that comparison is the right one is not decided. " +
-			"(D6) every module call of a library function that panics when a byte-slice argument has the wrong length (table read off the module's actual callees: ed25519.NewKeyFromSeed 32, ed25519.Sign/PrivateKey.Sign 64, ed25519.Verify 32, PrivateKey.Seed/Public >= 32, cipher.NewCTR/CBC/CFB/OFB IV == block size, AEAD Seal/Open nonce == nonce size, binary.ByteOrder (Put)UintN >= N/8, a []byte key boxed into aead/ecdh ComputeSecret 32) and every slice-to-array conversion is one obligation. The required length must hold on every path: slice of a fixed-size array or with constant bounds, make with a constant (or, for run-time sizes, [:n] / make(n)), result of a module function whose returns all have it, parameter for which every static module caller has it, X25519 shared secret, io.ReadAll(io.LimitReader(hkdf, K)) on the nil-error side (an HKDF stream delivers 255 hash lengths before failing, so a nil error means exactly K bytes), or a comparison of len of the same value (or of another read of the same access path) with a constant whose outcome on the dominating edge gives the bound: a comparison with the wrong constant does not count. A field of a module struct has the meet of the facts of every value stored into it anywhere in the module (a length buffer made with a constant size in every constructor), unless its address escapes. If the required length does not hold: when the known length excludes it (a seed read with the wrong constant limit) the site is a violation whatever the bytes are; otherwise it is a violation when the backward slice of the argument (through slicing, conversions, phis, module callees and the arguments of module callers) reaches a field of a protobuf message (every request message is one), the argument of an exported pkg/cryptoutil function (module callers, when there are any, count for establishing the length, not for trusting the bytes) or a whole-stream read (io.ReadAll, os.ReadFile); otherwise it is listed as an internal buffer. This classification is local to the argument's definition: it does not use D1's request-influence fixpoint, so an edit elsewhere cannot change it. For run-time sizes (block size, nonce size) an equality test against any run-time value or any constant length is accepted as written. " +
+			"(D6) every module call of a library function that panics when a byte-slice argument has the wrong length (table read off the module's actual callees: ed25519.NewKeyFromSeed 32, ed25519.Sign/PrivateKey.Sign 64, ed25519.Verify 32, PrivateKey.Seed/Public >= 32, cipher.NewCTR/CBC/CFB/OFB IV == block size, AEAD Seal/Open nonce == nonce size, binary.ByteOrder (Put)UintN >= N/8, a []byte key boxed into aead/ecdh ComputeSecret 32) and every slice-to-array conversion is one obligation. The required length must hold on every path: slice of a fixed-size array or with constant bounds, make with a constant (or, for run-time sizes, [:n] / make(n)), result of a module function whose returns all have it (a length test against a parameter of that function is read with the constant the call passes; a nil return of the callee counts as length 0 unless the call site has ruled it out: its error was tested nil there, or another of its results, a status constant or flag it returns only together with nil, is known to differ at the use, as after a switch over the status), parameter for which every static module caller has it, X25519 shared secret, io.ReadAll(io.LimitReader(hkdf, K)) on the nil-error side (an HKDF stream delivers 255 hash lengths before failing, so a nil error means exactly K bytes), or a comparison of len of the same value (or of another read of the same access path) with a constant whose outcome on the dominating edge gives the bound: a comparison with the wrong constant does not count. A field of a module struct has the meet of the facts of every value stored into it anywhere in the module (a length buffer made with a constant size in every constructor), unless its address escapes. If the required length does not hold: when the known length excludes it (a seed read with the wrong constant limit) the site is a violation whatever the bytes are; otherwise it is a violation when the backward slice of the argument (through slicing, conversions, phis, module callees and the arguments of module callers) reaches a field of a protobuf message (every request message is one), the argument of an exported pkg/cryptoutil function (module callers, when there are any, count for establishing the length, not for trusting the bytes) or a whole-stream read (io.ReadAll, os.ReadFile); otherwise it is listed as an internal buffer. This classification is local to the argument's definition: it does not use D1's request-influence fixpoint, so an edit elsewhere cannot change it. For run-time sizes (block size, nonce size) an equality test against any run-time value or any constant length is accepted as written. " +
 			"(D7) for every close(ch) in reachable code whose channel can be traced to make(chan) instructions (through local variables, variables captured by closures, phis and the arguments of static calls): every send on the same channel objects must run on the same goroutine as the close, and no second close may follow it. A function runs on goroutine go:<f> when it is the target of a go statement, otherwise on the goroutines of its callers (a closure that is called, deferred or handed to a callee runs on its creator's goroutine). A close in the creating function on a path that shares no CFG path with the go statement that starts the sender (early error return before the goroutine is started) is accepted; a deferred close counts from its defer statement. Closes of channels held in struct fields, maps or returned by calls are listed in the notes as not decided; synchronisation that orders a foreign close after the last send (WaitGroup) is not recognised and would be reported. " +
 			"(D8) every type assertion without comma-ok in reachable code is one obligation. It is accepted when the operand's static interface type already satisfies the asserted interface, or when a successful comma-ok assertion of the same value to the same (or an implying) type dominates it. Otherwise the set of dynamic types of the operand is derived where the module's code determines it: values boxed in the module, results of module functions, phis and captured variables, values sent on a channel created in reachable code, the event types an event-bus subscription was created for (Subscribe(new(T)) or a literal list; libp2p delivers only those), proto.Clone of such a value, and a field of the entries of a package-level map literal that is assigned nowhere else (the event-type table); every member of the set must be identical to, or implement, the asserted type, and the report names the ones that do not. Where the set cannot be derived (results of dependencies such as BaseStore.Index, container/list and container/heap elements) the site is listed as not decided, never as a violation. " +
 			"(D9) every index expression into a fixed-size array whose index is not a constant (module-wide; one site today, the copy loop of Group.GetLinkKeyArray) is one obligation: an exclusive upper bound of the index must hold on every path and be at most the array length. Bounds come from a dominating comparison of the index with a constant, with the length of an array, or with len of a slice whose length facts (as in D6) give an upper bound (the range loop over a slice tested == N or <= N), from a constant mask, or from an 8-bit unsigned index type. A bound above the array length is a violation; when the index only runs below the length of a slice without an upper bound, the site is a violation if that slice is untrusted in the sense of D6 (protobuf message field, argument of an exported helper, whole-stream read), as it is when the index is computed from an element of such bytes; otherwise it is listed as not decided. Index expressions into slices are not covered outside D5. " +
